@@ -13,6 +13,7 @@ from nmverif.engines import edit as E
 from nmverif.gen import canon, damage
 from nmverif.oracle import attrtree as A
 from nmverif.oracle import cst
+from nmverif.oracle import editmodel as M
 from nmverif.worker import wal
 
 PROPERTY = "C16"
@@ -135,6 +136,10 @@ def inputs(rng):
         return "empty", ""
     if k < 0.72:
         return "whitespace-only", rng.choice([" ", "\n", "\n\n  \n"])
+    if k < 0.76:
+        # a byte order mark in front (files written by some editors); whatever the library makes of
+        # it, both channels have to hand it the same characters
+        return "byte-order-mark", "\ufeff" + rng.choice([text, text.rstrip("\n"), "# caf\u00e9\n" + text])
     if k < 0.82:
         return "no-final-newline", text.rstrip("\n")
     if k < 0.90:
@@ -158,7 +163,12 @@ def commands(rng, text):
     if kk < 0.6:
         return "rm:missing", ["rm", "absent" + str(rng.randrange(99))]
     if kk < 0.8:
-        return "set:bad-value", ["set", "x", rng.choice(E.BAD_VALUES[1:])]
+        if dv.target is not None and rng.random() < 0.5:
+            names = [b.path[0] for b in dv.target.bindings if b.kind == "bind" and len(b.path) == 1]
+            if names:
+                # an unusable VALUE aimed at a binding that exists (an empty VALUE is not `rm`)
+                return "set:bad-value-existing", ["set", M.quote_segment(rng.choice(names)), rng.choice(E.BAD_VALUES)]
+        return "set:bad-value", ["set", "x", rng.choice(E.BAD_VALUES)]
     return "set:malformed", ["set", rng.choice([p for p in E.MALFORMED_PATHS if p and not p.startswith("-")]), "1"]
 
 
